@@ -417,8 +417,10 @@ def _render_fn_lines(p, fid, ctx, prelude):
         lines.append("    r.append(dv%d)" % j)
     if f.get("fail") and f["fail"].get("when") == "start":
         lines.append(_raise_line(f))
+    chained = None
     for i, s in enumerate(f["stmts"]):
         k = s["k"]
+        nlines = len(lines)
         if k == "call":
             args = ", ".join(_arg_src(ctx, f, a) for a in s["args"])
             lines.append("    x%d = %s(%s)" % (i, ctx.fn_expr(s["fn"]), args))
@@ -521,6 +523,15 @@ def _render_fn_lines(p, fid, ctx, prelude):
             lines.append("    x%d = %s.lz_helper()" % (i, zn))
         else:
             raise ValueError(k)
+        # two statements written as one expression: the first one is the receiver of a method call, the second one its
+        # argument (Python evaluates the receiver first): x = <first>.count(<second>)
+        if s.get("chain_next") and len(lines) == nlines + 1 and lines[-1].startswith("    x%d = " % i):
+            chained = lines.pop()[len("    x%d = " % i):]
+            lines.append("    x%d = None" % i)
+        elif chained is not None and len(lines) == nlines + 1 and lines[-1].startswith("    x%d = " % i):
+            second = lines.pop()[len("    x%d = " % i):]
+            lines.append("    x%d = (%s).count(%s)" % (i, chained, second))
+            chained = None
         lines.append("    r.append(x%d)" % i)
     if f.get("fail") and f["fail"].get("when", "end") == "end":
         lines.append(_raise_line(f))
